@@ -104,6 +104,46 @@ def interrupted(fn, n, exc_type=RecursionError):
         COL.counters['library_lines_run_under_fault_injection'] += _st['seen']
 
 
+class FailingWriter:
+    """A text (or binary) stream whose device fills up: ``write`` raises ``OSError(ENOSPC)`` once more
+    than ``after`` characters have been written.  The failure counts as a fault of the harness
+    (``fired`` moves), so the monitored call it cuts short is not judged."""
+
+    def __init__(self, after, binary=False):
+        self.after, self.n, self.binary = after, 0, binary
+        self.parts = []
+
+    def write(self, data):
+        self.n += len(data)
+        if self.n > self.after:
+            import errno
+            _st['fired'] += 1
+            COL.counters['writes_failed_with_ENOSPC_by_the_harness'] += 1
+            raise OSError(errno.ENOSPC, 'No space left on device (injected by the harness)')
+        self.parts.append(data)
+        return len(data)
+
+    def flush(self):
+        pass
+
+
+def environment(fn, types=(OSError,)):
+    """Run ``fn()`` where the *environment* is expected to fail it (missing directory, a directory in
+    place of a file, a full device): an ``OSError`` that comes back out is not the library's doing, the
+    monitored call is not judged (``attach`` checks ``COL.env_fault``).  Returns ``INTERRUPTED`` then,
+    the result otherwise; anything that is not an ``OSError`` is re-raised for the caller to handle.
+    ``types``: other exception types that are the expected outcome of the call as it is made (a csv
+    dialect without quoting and without an escape character cannot write a label that holds the delimiter)."""
+    COL.env_fault = types
+    try:
+        return fn()
+    except types:
+        COL.counters['calls_failed_by_the_environment_not_judged'] += 1
+        return INTERRUPTED
+    finally:
+        COL.env_fault = False
+
+
 def count_lines(fn):
     """Run ``fn()`` to its end and return the number of library lines it executed (None if unavailable)."""
     if not _st['ready']:
